@@ -105,7 +105,7 @@ func (p *TxProcessor) Process(header *types.Header, txs types.Transactions) (uin
 			return gasUsed, ErrTxGasUsedNotEqual
 		}
 		gasUsed = gasUsed + gas
-		fee := new(big.Int).Mul(new(big.Int).SetUint64(gas), tx.GasPrice())
+		fee := new(big.Int).Mul(new(big.Int).SetUint64(selfPricedGas(tx, gas)), tx.GasPrice())
 		totalGasFee.Add(totalGasFee, fee)
 	}
 	p.chargeForGas(totalGasFee, header.MinerAddress)
@@ -172,7 +172,7 @@ txsLoop:
 		selectedTxs = append(selectedTxs, tx)
 
 		gasUsed = gasUsed + gas
-		fee := new(big.Int).Mul(new(big.Int).SetUint64(gas), tx.GasPrice())
+		fee := new(big.Int).Mul(new(big.Int).SetUint64(selfPricedGas(tx, gas)), tx.GasPrice())
 		totalGasFee.Add(totalGasFee, fee)
 	}
 	p.chargeForGas(totalGasFee, header.MinerAddress)
@@ -181,6 +181,25 @@ txsLoop:
 		log.Infof("Process %d transactions", len(selectedTxs))
 	}
 	return selectedTxs, invalidTxs, gasUsed
+}
+
+// selfPricedGas returns the part of gasUsed which is charged at the price of tx itself.
+// The sub transactions in a box pay their own gas at their own price in RunBoxTxs, so the miner must not be paid for it again
+func selfPricedGas(tx *types.Transaction, gasUsed uint64) uint64 {
+	if tx.Type() != params.BoxTx {
+		return gasUsed
+	}
+	box, err := types.GetBox(tx.Data())
+	if err != nil {
+		return gasUsed
+	}
+	for _, subTx := range box.SubTxList {
+		if subTx.GasUsed() > gasUsed {
+			return 0
+		}
+		gasUsed -= subTx.GasUsed()
+	}
+	return gasUsed
 }
 
 // buyAndPayIntrinsicGas
